@@ -157,7 +157,54 @@ def gen_Ndim():
     write("Ndim", body, "_field_func_kwargs_ndim of every class in magpylib._src.utility.get_registered_sources()")
 
 
-GENERATORS = {"PathPad": gen_PathPad, "Exits": gen_Exits, "Ndim": gen_Ndim}
+def gen_Const():
+    """numeric constants: the exported mu_0, and every literal in the package source that denotes mu_0
+    (4*pi*1e-7 spelled out, or an import of scipy's mu_0) with file:line"""
+    import ast
+    import math
+    import struct
+
+    import magpylib
+
+    bits = struct.unpack("<Q", struct.pack("<d", float(magpylib.mu_0)))[0]
+    root = os.path.join(REPO, "magpylib")
+    sites = []  # (file:line, kind) kind: "scipy" | "literal"
+    for dp, _, fs in os.walk(root):
+        for f in sorted(fs):
+            if not f.endswith(".py"):
+                continue
+            p = os.path.join(dp, f)
+            try:
+                tree = ast.parse(open(p).read())
+            except SyntaxError:
+                continue
+            rel = os.path.relpath(p, REPO)
+            for node in ast.walk(tree):
+                if isinstance(node, ast.ImportFrom) and node.module == "scipy.constants" and any(a.name == "mu_0" for a in node.names):
+                    sites.append((f"{rel}:{node.lineno}", "scipy"))
+                if isinstance(node, ast.BinOp):
+                    try:
+                        val = eval(compile(ast.Expression(node), "<c>", "eval"), {"np": __import__("numpy"), "pi": math.pi, "math": math})
+                    except Exception:
+                        continue
+                    if isinstance(val, float) and abs(val - 4e-7 * math.pi) < 1e-12 and abs(val - float(magpylib.mu_0)) > 0:
+                        sites.append((f"{rel}:{node.lineno}", "literal"))
+    sites = sorted(set(sites))
+    def row(a, b):
+        f, ln = a.rsplit(":", 1)
+        return f'("{f}", {ln}, "{b}", {"true" if f.startswith("magpylib/_src/fields/") else "false"})'
+
+    lst = "[" + ", ".join(row(a, b) for a, b in sites) + "]"
+    body = ("namespace MagpyVerif.Gen.Const\n\n"
+            "/-- bit pattern of the exported `magpylib.mu_0` -/\n"
+            f"def mu0Bits : UInt64 := {bits}\n\n"
+            "/-- every place in the package where a value for mu_0 enters (file, line, kind, in fields/?): scipy's constant (= the exported one) or a spelled-out 4*pi*1e-7 -/\n"
+            f"def mu0Sites : List (String × Nat × String × Bool) := {lst}\n\n"
+            "end MagpyVerif.Gen.Const\n")
+    write("Const", body, "magpylib package source (AST scan) and magpylib.mu_0")
+
+
+GENERATORS = {"Const": gen_Const, "PathPad": gen_PathPad, "Exits": gen_Exits, "Ndim": gen_Ndim}
 
 
 def main():
